@@ -60,6 +60,8 @@ where
     ) -> impl Future<Output = Result<Disposition, Errno>> + use<S> {
         let this = Rc::clone(self);
         async move {
+            #[cfg(feature = "verif-hooks")]
+            crate::verif_hooks::preempt_point("concurrent.set_disposition").await;
             if disposition == Disposition::Catch {
                 // Before setting the disposition to `Catch`, we need to block the signal
                 // to prevent it from being delivered before the disposition is updated.
